@@ -122,15 +122,28 @@ func H_C07_Sequence() {
 		m.leave.Store(1) // the history may begin inside a Leave call that has just raised its flag
 	}
 	seen := 0
-	steps := 2 + vTier()
+	// quick: every 2-step history over the full step alphabet; thorough: those, plus every 3-step history over a
+	// reduced alphabet (incarnations just below / at / above the record's, gossip carrier only)
+	steps, reduced := 2, false
+	if vTier() == 1 && vPick(2) == 1 {
+		steps, reduced = 3, true
+	}
 	for i := 0; i < steps; i++ {
 		op := vPick(8)
 		switch op {
 		case 0, 1:
 			target := []string{vPeerA, vSelf}[op]
-			inc := uint32(4 + vPick(4))
+			var inc uint32
+			if reduced {
+				inc = uint32(5 + vPick(2))
+			} else {
+				inc = uint32(4 + vPick(4))
+			}
 			kind := vPick(3)
-			c := &vClaim{kind: kind, inc: inc, from: []string{vPeerB, target}[vPick(2)], merge: vPick(2) == 1}
+			c := &vClaim{kind: kind, inc: inc, from: []string{vPeerB, target}[vPick(2)]}
+			if !reduced {
+				c.merge = vPick(2) == 1
+			}
 			if kind == 0 {
 				c.addr, c.port = []byte{10, 0, 0, 2}, 7946
 				if target == vSelf {
